@@ -336,7 +336,10 @@ pub fn defective_spelling(rng: &mut Rng) -> String {
     let seed = if rng.chance(1, 2) { 0 } else { rng.subseed() };
     match rng.below(14) {
         0 => {
-            c.ty.push(*rng.pick(&['!', '_', ' ', 'é', '~', '*']));
+            c.ty.push(*rng.pick(&['!', '_', ' ', 'é', '~', '*', ',', ':', ';', '=', '&', '$', '\'', '(', ')', '\\', '|', '^']));
+            if rng.chance(1, 2) {
+                c.ty.push('x');
+            }
             spell(&c, seed)
         },
         1 => {
